@@ -110,7 +110,8 @@ let run (path : string) =
         let now, btime, amt, lsr_ = zs now, zs btime, zs amt, zs lsr_ in
         let x, y, f = units_of_bits xb, units_of_bits yb, units_of_bits fb in
         let fz = z_of_zz f in
-        let m = AccrualFast.calculation_of_rewards_fast (fun _ _ -> fz) now btime amt lsr_ in
+        (* math.Pow = its exact special cases around the observed value *)
+        let m = AccrualFast.calculation_of_rewards_fast (Pow.go_pow (fun _ _ -> fz)) now btime amt lsr_ in
         cmpf "C.class" (cls_of m) c;
         (match m with Base.Ok n -> cmpf "C.new" (sz n) nw | _ -> ());
         let secs = BinInt.Z.sub now btime in
@@ -122,8 +123,11 @@ let run (path : string) =
           if not (BinInt.Z.eqb res BinNums.Z0) then nt := true;
           (* hypotheses on math.Pow, tested *)
           let xz, yz = z_of_zz x, z_of_zz y in
-          bump (if Accrual.h1_ok xz yz fz then "pow:H1:ok" else "pow:H1:FAIL");
-          bump (if Accrual.h2_ok yz fz then "pow:H2:ok" else "pow:H2:FAIL");
+          (* the modelled special cases of math.Pow (y == 0 || x == 1 -> 1, y == 1 -> x) against the observed value *)
+          cmpf "C.pow_special_cases" (sz (Pow.go_pow (fun _ _ -> fz) xz yz)) (sz fz);
+          if BinInt.Z.eqb yz BinNums.Z0 || Z.equal x fone || Z.equal y fone then bump "pow:special-case";
+          (* derived facts, for information *)
+          bump (if Accrual.h1_ok xz yz fz then "pow:ge1:ok" else "pow:ge1:FAIL");
           (* relative error against the exact power when the exponent is a whole number of years *)
           (if Z.sign y > 0 && Z.equal (Z.rem y fone) Z.zero then begin
               let k = Z.to_int (Z.div y fone) in
@@ -136,8 +140,10 @@ let run (path : string) =
           if not (Accrual.holds_C18_zero_time secs res) then pf "cmp_zero_time" "none" nw;
           let o = { ca = amt; cr = lsr_; ct = secs; cres = res; cx = x; cy = y; cf = f } in
           L.iter (fun o' ->
-              bump (if Accrual.h3_ok (z_of_zz o'.cx) (z_of_zz o'.cy) (z_of_zz o'.cf) xz yz fz
-                    && Accrual.h3_ok xz yz fz (z_of_zz o'.cx) (z_of_zz o'.cy) (z_of_zz o'.cf) then "pow:H3:ok" else "pow:H3:FAIL");
+              (* the assumed hypothesis PowMonoBox, tested on this pair; a failure breaks the tie of the proof to the code *)
+              if Pow.pow_mono_ok (z_of_zz o'.cx) (z_of_zz o'.cy) (z_of_zz o'.cf) xz yz fz
+                 && Pow.pow_mono_ok xz yz fz (z_of_zz o'.cx) (z_of_zz o'.cy) (z_of_zz o'.cf) then bump "pow:mono:ok"
+              else begin bump "pow:mono:FAIL"; mismatch ~case:!case ~step:!step ~field:"hypothesis.PowMonoBox" ~model:"monotone" ~impl:(Printf.sprintf "pow(%s,%s)=%s_vs_pow(%s,%s)=%s" (Z.to_string o'.cx) (Z.to_string o'.cy) (Z.to_string o'.cf) (Z.to_string x) (Z.to_string y) (Z.to_string f)) end;
               mono "cmp" (o'.ca, o'.cr, o'.ct, o'.cres) (amt, lsr_, secs, res)) !prevC;
           prevC := o :: !prevC
         end
@@ -160,7 +166,8 @@ let run (path : string) =
            let num = Z.sub (Z.mul (Z.mul o1.cf o2.cf) (Z.shift_left Z.one 53)) (Z.mul (Z.mul (Z.shift_left Z.one 53) o12.cf) fone) in
            let en = if Z.sign num <= 0 then Z.zero else Z.cdiv num (Z.mul o12.cf fone) in
            incr h4n; if Z.gt en !max_en then max_en := en;
-           bump (if Accrual.h4_ok (z_of_int 4096) (z_of_zz o1.cf) (z_of_zz o2.cf) (z_of_zz o12.cf) then "pow:H4:ok(en<=4096)" else "pow:H4:FAIL(en>4096)");
+           if Accrual.h4_ok (z_of_int 4096) (z_of_zz o1.cf) (z_of_zz o2.cf) (z_of_zz o12.cf) then bump "pow:H4:ok(en<=4096)"
+           else begin bump "pow:H4:FAIL(en>4096)"; mismatch ~case:!case ~step:!step ~field:"hypothesis.H4" ~model:"en<=4096" ~impl:(Z.to_string en) end;
            (* predicate only (not proved through the float roundings): n1 + n2 <= n12 + amt * f12 * 2^-46 + 2 ulp *)
            let slack = Z.add (Z.div (Z.mul (Z.mul (Z.of_string amt) o12.cf) p18) (Z.mul fone (Z.shift_left Z.one 46))) (Z.of_int 2) in
            if Z.gt (Z.add (Z.of_string n1) (Z.of_string n2)) (Z.add (Z.of_string n12) slack) then
